@@ -301,9 +301,36 @@ class Session:
             self._register(op["h"], "tealer", tealer)
             self._register(op["h"] + ".t", "teal", teal)
             self._register(op["h"] + ".f", "function", function)
+        self._side_printers(tealer, op, ev)
         for name in op.get("dets", []):
             tealer.register_detector(self.detectors[name])
         self._run_detectors(tealer, function, op.get("runs"), ev)
+
+    def _side_printers(self, tealer: Any, op: Dict[str, Any], ev: Dict[str, Any]) -> None:
+        """Printers (and the regex tool) run on the very same Tealer/Teal object before anything is
+        observed: history on the object, not only in the process.  What they print is not judged and
+        a printer that fails does not fail the operation."""
+        errs = []
+        for name in op.get("printers", []):
+            try:
+                if name == "regex":
+                    from pathlib import Path
+                    from tealer.utils.regex.regex import run_regex
+
+                    with open(os.path.join(self.scratch, "regex.txt"), "w", encoding="utf-8") as f:
+                        f.write("* =>\n int 1\n return\n")
+                    run_regex(list(tealer.contracts.values())[0], "regex.txt", Path("regex_result.dot"))
+                elif not any(type(p_).NAME == name for p_ in tealer.printers):
+                    tealer.register_printer(self.printers[name])
+                    tealer.printers[-1].print()
+                else:
+                    [p_ for p_ in tealer.printers if type(p_).NAME == name][0].print()
+            except Exception as e:  # noqa
+                if faults.is_injected(e):
+                    raise
+                errs.append([name, type(e).__name__])
+        if errs:
+            ev["printer_errors"] = errs
 
     def op_rerun(self, op: Dict[str, Any], ev: Dict[str, Any]) -> None:
         tealer = self.handles[op["h"]]
@@ -319,6 +346,7 @@ class Session:
         runs = op.get("runs")
         if runs is not None:
             runs = [r for r in runs if r in have]
+        self._side_printers(tealer, op, ev)
         self._run_detectors(tealer, function, runs, ev)
 
     def op_cli(self, op: Dict[str, Any], ev: Dict[str, Any]) -> None:
@@ -430,6 +458,7 @@ class Session:
             f.write(op["yaml"])
         config = read_config_from_file(Path("config.yaml"))
         tealer = init_tealer_from_config(config)
+        self._side_printers(tealer, op, ev)
         ev["obs"] = {"functions": {}}
         full = ev["i"] in self.want_full
         fulls: Dict[str, Any] = {}
@@ -542,6 +571,7 @@ class Session:
         sys.stdout = io.StringIO()
         sys.stderr = io.StringIO()
         handler = getattr(self, "op_" + op["op"])
+        limit_before = sys.getrecursionlimit()
         try:
             if fault is not None:
                 kind = fault["kind"]
@@ -564,7 +594,10 @@ class Session:
                 sys.settrace(None)
                 if shim is not None:
                     shim.remove()
-                sys.setrecursionlimit(DEFAULT_RECURSION_LIMIT)
+                if fault is not None and fault["kind"] == "recursion":
+                    # only undo what the harness itself changed: a limit tealer leaves behind is
+                    # state of the process under test
+                    sys.setrecursionlimit(limit_before)
             ev["outcome"] = "ok"
         except BaseException as e:  # noqa
             sys.settrace(None)
